@@ -3,7 +3,7 @@
 import json,re,collections,os
 rows=collections.defaultdict(list)
 for l in open('/verif/seeded/RESULTS.tsv'):
-    m=re.match(r'seed=(\S+) check=(\S+) (?:exit=(\d+) violations=(\d+) :: (.*)|(APPLY-FAIL))',l.strip())
+    m=re.match(r'seed=(\S+) check=(\S+) (?:exit=(\d+) violations=(\d+) ::\s*(.*)|(APPLY-FAIL))',l.strip())
     if not m: continue
     s,c,ex,v,what,af=m.groups()
     rows[s].append((c,ex,v,(what or af or '').strip()))
